@@ -15,7 +15,7 @@ def run(rep, tier, seed):
     rep.floor('table checks', ntab, 20)
     nttcheck.threshold_notes(rep, 'ext')
     rep.floor('configurations', len(res), 300 if tier == 'quick' else 3000)
-    nttrules.run_rules(rep, ('compute-r', 'shift-const'))
+    nttrules.run_rules(rep, ('compute-r', 'shift-const', 'fpround-ntt'))
     rep.sample(dict(kind='extendPol', example=nttcheck.describe_ext(cfgs[len(cfgs) // 2]), configurations=len(cfgs)))
     rep.assumptions += ['bounded in shape (N <= N_ext <= %d); universal in data' % (32 if tier == 'quick' else 128)]
     rep.trusted = ['clang 14 lowering', 'glv interpreter', 'scalar field contracts (C01)', 'GMP model']
